@@ -22,11 +22,15 @@ Envelope (what is deliberately not modelled; the generator stays inside it):
 * statements are straight-line; the only error handling is the guarded *string* import
   (`try` / `import 'm'` / `catch`), which binds nothing — after a caught failed `import m` the real
   local `m` holds the module-name string (register left-over, C04 territory);
-* values are integers, module export maps and opaque prelude entries; no exported functions are called
-  across modules, so a completed exports map is never mutated and `mref p` is also its identity;
+* values are integers, null, module export maps, exported functions and opaque prelude entries; exported
+  functions are straight-line and called from module / host top levels only (`TAct.callMember`,
+  `TAct.call`); since `export` inside a function writes to the caller's map (finding F-C18-6) a
+  completed exports map is never mutated and `mref p` is also its identity;
 * `export_top_level_ids` + `from m import *` with `m` a local of the same script reads a register the
   compiler never wrote (finding F-C18-2): the model states the intended result there;
-* import names are plain identifiers: no nested paths (`from a.b import c`), no `..`, no symlinks.
+* import strings may carry path segments (`'../lib/name'`, `..` never above the root, components
+  exist) and dotted names (`'utils.v2'`, through `Cfg.stem`); no nested item paths
+  (`from a.b import c`), no symlinks.
 
 Only core Lean is imported so that the driver links and `decide` can evaluate everything.
 -/
